@@ -97,6 +97,17 @@ let run_prop (line : string) : string =
   | PFuel -> "FUEL"
   | PDone s -> Printf.sprintf "ok %s %s" (if all_fixed s then "solved" else "stalled") (fmt_doms s)
 
+(* sub-command `deps`: for every variable the propagators whose trigger list (PropDefs.trig = list_trigger_vars) contains it,
+   in registration order, once per occurrence: the implementation's dependency table *)
+let run_deps (line : string) : string =
+  let st = setup line in
+  let nv = List.length st.store in
+  let rows = List.init nv (fun v ->
+    let ps = List.concat (List.mapi (fun i (p : prop) ->
+      List.filter_map (fun t -> if int_of_nat t = v then Some (string_of_int i) else None) p.trig) st.props) in
+    if ps = [] then "-" else String.concat "," ps) in
+  "deps " ^ String.concat "|" rows
+
 let fmt_sol (s : z list list) : string =
   String.concat "," (List.map (fun d -> match d with [x] -> string_of_int (int_of_z x) | _ -> "?") s)
 let fmt_sols (l : z list list list) = "sols " ^ (if l = [] then "-" else String.concat " " (List.map fmt_sol l))
